@@ -7,6 +7,8 @@
     This file contains only statements; proofs are in FVP.Regrid_proofs. *)
 From Coq Require Import List ZArith QArith Bool Lia.
 From FV Require Import Base Arr Regrid.
+From FV Require Mask.
+From FVP Require Mask_proofs.
 From FVP Require Import Regrid_proofs.
 Import ListNotations.
 
@@ -161,6 +163,20 @@ Theorem C16_masked_targets_stay_masked :
      forall j, (j < length tpts)%nat -> masked_at (requested am down) j = true -> nth j cells CNaN = CMasked).
 Proof. split; [exact nearest_masked_stay|exact linear_masked_stay]. Qed.
 
+(** The flattened view used above is the n-d code path: compressing the raveled data with the
+    raveled mask IS FV.Mask.to_compressed of the n-d array (masked-array or separate-mask form), and
+    scattering IS the raveled result of FV.Mask.from_compressed, raveled in the grid's order [o]. *)
+Theorem C16_flat_view_is_nd :
+  (forall (A : Type) (a : arr A) (m : arr bool) (o : order) w arg,
+     Mask_proofs.uses_mask w arg m ->
+     Mask.to_compressed a w o arg = sel (Some (ravel o m)) (ravel o a))
+  /\ (forall (A : Type) (vals : list A) sh (o : order) (tm : arr bool) kw,
+     ashape tm = sh ->
+     exists d, Mask.from_compressed vals sh o (Mask.MBits tm) kw = Mask.FcMasked d (Some tm) /\
+               ashape d = sh /\
+               map cell_of_opt (ravel o d) = unsel (Some (ravel o tm)) (map CVal vals)).
+Proof. split; [exact sel_is_to_compressed|exact unsel_is_from_compressed]. Qed.
+
 (** * Non-vacuity *)
 
 (** 2x2 source points in F order with the element at (0,0) masked (its value 999 must not appear),
@@ -241,3 +257,4 @@ Print Assumptions C16_noninterference.
 Print Assumptions C16_linear_affine.
 Print Assumptions C16_linear_affine_fill.
 Print Assumptions C16_masked_targets_stay_masked.
+Print Assumptions C16_flat_view_is_nd.
